@@ -748,6 +748,19 @@ pub fn generate(seed: u64, base: &Cfg) -> Program
     if g.r.chance(50) { steps.push(Step::Direct(WOp::Gc)); steps.push(Step::Direct(WOp::Poll)); }
     if g.wr.contains(&1) && g.r.chance(60) { let n = g.r.range(1, 3); let t: Vec<Trig> = (0..n).map(|_| g.any_trig()).collect(); prog.wr_starting = dedup(t); }
     prog.callees = if g.c.syscalls { crate::sysfam::gen_callees(&mut g) } else { Vec::new() };
+    // app life cycle variation: the plugin is added after the app-level reactors. Reactive components cannot be inserted before
+    // the plugin (documented panic), so the slots start empty and get their components at the start of the first batch.
+    prog.plugin_last = g.r.chance(15);
+    if prog.plugin_last
+    {
+        let mut pre = Vec::new();
+        for (s, (a, b)) in prog.slots.iter_mut().enumerate()
+        {
+            if let Some(v) = a.take() { pre.push(Op::Insert(s as Slot, C::A, v)); }
+            if let Some(v) = b.take() { pre.push(Op::Insert(s as Slot, C::B, v)); }
+        }
+        if let Some(Step::Batch(ops)) = steps.first_mut() { pre.append(ops); *ops = pre; }
+    }
     prog.insts = g.insts;
     prog.frame_systems = fs;
     prog.steps = steps;
